@@ -17,88 +17,105 @@
      isReader th f k       th's openForReading(k) returned anchor f and th has not yet started to close it
      exclOn f th           an activity of th is between lock calls holding anchor f's lock exclusively
      MFree s               event: StoreMap returned slice s to the pool (StoreMapCleaner::noteFreeMapSlice)
-     MRet o (OOpenR (Some k)) m   event: openForReading under key k succeeded *)
+     MRet o (OOpenR (Some k)) m   event: openForReading under key k succeeded
+
+   PARTIAL (every theorem named ..._partial): the model contains openForUpdating / sliceContaining / the updater's
+   fresh-prefix writes / closeForUpdating / abortUpdating (one transition per atomic operation, validated against the
+   code like the rest), but the theorems are proved for scripts WITHOUT update operations only
+   ([noupd scripts = true]: no KU/KSp/KCu/KAu). What is known about updating rests on the correspondence runs and the
+   oracle (checks/c55.py): one updater per entry (headers lock), readers keep reading during an update, after an update
+   every chain walk yields fresh prefix ++ old suffix, a recycled stale anchor frees exactly the replaced prefix, no
+   slice of an open or current entry is freed — with ONE exception that the unchanged code really has and which is
+   stated below as C55_stale_reader_loses_shared_suffix_refuted (known finding). *)
 Require Import SquidV.Bytes SquidV.RwlockModel SquidV.RwlockProofs SquidV.StoremapModel SquidV.StoremapLock SquidV.StoremapProofs.
 Local Open Scope Z_scope.
 
 (* --- composition with C54: the counting invariant of the read/write lock holds for EVERY anchor in every
        reachable state, and no assert() about the lock state (writing()/reading()) can fail --- *)
-Theorem C55_lock_invariant_every_anchor : forall n scripts sched, LInvC (sreach n scripts sched).
+Theorem C55_lock_invariant_every_anchor_partial : forall n scripts sched, noupd scripts = true -> LInvC (sreach n scripts sched).
 Proof. exact sreach_linv. Qed.
-Print Assumptions C55_lock_invariant_every_anchor.
+Print Assumptions C55_lock_invariant_every_anchor_partial.
 
-Theorem C55_no_lock_assertion_fires : forall n scripts sched i th,
+Theorem C55_no_lock_assertion_fires_partial : forall n scripts sched i th,
+  noupd scripts = true ->
   nthN i (mths (sreach n scripts sched)) = Some th -> tpc th <> CrashedL.
 Proof. exact reach_no_lock_assert. Qed.
-Print Assumptions C55_no_lock_assertion_fires.
+Print Assumptions C55_no_lock_assertion_fires_partial.
 
 (* --- no two writers hold the same entry (exclusive, appending or aborting alike) --- *)
-Theorem C55_at_most_one_writer_per_entry : forall n scripts sched f a i j thi thj x y,
+Theorem C55_at_most_one_writer_per_entry_partial : forall n scripts sched f a i j thi thj x y,
   let st := sreach n scripts sched in
+  noupd scripts = true ->
   nthN f (anchors (msh st)) = Some a ->
   i <> j -> nthN i (mths st) = Some thi -> nthN j (mths st) = Some thj ->
   holdsP f thi = Some x -> holdsP f thj = Some y -> is_writer x = true -> is_writer y = true -> False.
 Proof. exact reach_one_writer. Qed.
-Print Assumptions C55_at_most_one_writer_per_entry.
+Print Assumptions C55_at_most_one_writer_per_entry_partial.
 
 (* --- a reader holds an entry only under the requested key ... --- *)
-Theorem C55_reader_key_matches : forall n scripts sched t th f k a,
+Theorem C55_reader_key_matches_partial : forall n scripts sched t th f k a,
   let st := sreach n scripts sched in
+  noupd scripts = true ->
   nthN t (mths st) = Some th -> isReader th f k -> nthN f (anchors (msh st)) = Some a -> akey a = k.
 Proof. exact reach_reader_key. Qed.
-Print Assumptions C55_reader_key_matches.
+Print Assumptions C55_reader_key_matches_partial.
 
 (* --- ... and only while the entry is complete or being appended: any writer of the entry coexisting with the
        reader has called startAppending (MAppend), or is the appending writer inside abortWriting that found the
        reader and is about to mark the entry and leave (MBusy) --- *)
-Theorem C55_reader_only_with_complete_or_appending_entry : forall n scripts sched f a i j thi thj k y,
+Theorem C55_reader_only_with_complete_or_appending_entry_partial : forall n scripts sched f a i j thi thj k y,
   let st := sreach n scripts sched in
+  noupd scripts = true ->
   nthN f (anchors (msh st)) = Some a ->
   i <> j -> nthN i (mths st) = Some thi -> nthN j (mths st) = Some thj ->
   isReader thi f k -> holdsP f thj = Some y -> is_writer y = true -> y = MAppend \/ y = MBusy.
 Proof. exact reach_reader_vs_writer. Qed.
-Print Assumptions C55_reader_only_with_complete_or_appending_entry.
+Print Assumptions C55_reader_only_with_complete_or_appending_entry_partial.
 
 (* the same for freeEntry/freeEntryByKey calls of any process (the reader itself included): none of them holds the
    entry exclusively while it is being read *)
-Theorem C55_reader_excludes_exclusive_deleter : forall n scripts sched f a i j thi thj k y,
+Theorem C55_reader_excludes_exclusive_deleter_partial : forall n scripts sched f a i j thi thj k y,
   let st := sreach n scripts sched in
+  noupd scripts = true ->
   nthN f (anchors (msh st)) = Some a ->
   nthN i (mths st) = Some thi -> nthN j (mths st) = Some thj ->
   isReader thi f k -> holdsT f thj = Some y -> y = MIdle \/ y = MShared \/ y = MHeaders \/ y = MAppend \/ y = MBusy.
 Proof. exact reach_reader_vs_transient. Qed.
-Print Assumptions C55_reader_excludes_exclusive_deleter.
+Print Assumptions C55_reader_excludes_exclusive_deleter_partial.
 
 (* --- a successful openForReading saw, at the moment it succeeded, an anchor that is not waitingToBeFreed and
        carries the requested key --- *)
-Theorem C55_marked_entry_is_not_opened : forall n scripts sched t st' evs b c k m',
+Theorem C55_marked_entry_is_not_opened_partial : forall n scripts sched t st' evs b c k m',
   let st := sreach n scripts sched in
+  noupd scripts = true ->
   sstep st t = (st', evs, b) -> In (t, MRet c (OOpenR (Some k)) m') evs ->
   exists f a, nthN f (anchors (msh st)) = Some a /\ wtbf a = false /\ akey a = k.
 Proof. exact reach_open_saw_unmarked. Qed.
-Print Assumptions C55_marked_entry_is_not_opened.
+Print Assumptions C55_marked_entry_is_not_opened_partial.
 
 (* --- the key of an anchor changes, and a set waitingToBeFreed mark disappears, only by a step of a process that
        holds the anchor exclusively (rewind() while freeing the entry, setKey() of the writer that created it) --- *)
-Theorem C55_key_and_mark_change_only_under_exclusive_lock : forall n scripts sched t st' evs b f a a',
+Theorem C55_key_and_mark_change_only_under_exclusive_lock_partial : forall n scripts sched t st' evs b f a a',
   let st := sreach n scripts sched in
+  noupd scripts = true ->
   sstep st t = (st', evs, b) ->
   nthN f (anchors (msh st)) = Some a -> nthN f (anchors (msh st')) = Some a' ->
   akey a' <> akey a \/ (wtbf a = true /\ wtbf a' = false) ->
   exists th, nthN t (mths st) = Some th /\ exclOn f th.
 Proof. exact reach_step_protected. Qed.
-Print Assumptions C55_key_and_mark_change_only_under_exclusive_lock.
+Print Assumptions C55_key_and_mark_change_only_under_exclusive_lock_partial.
 
 (* --- hence, while a reader holds an entry, whatever any process does: the key stays and a deletion mark stays
        (a deleted entry does not become openable again under its readers) --- *)
-Theorem C55_entry_stable_while_read : forall n scripts sched t st' evs b f a a' i thi k,
+Theorem C55_entry_stable_while_read_partial : forall n scripts sched t st' evs b f a a' i thi k,
   let st := sreach n scripts sched in
+  noupd scripts = true ->
   sstep st t = (st', evs, b) ->
   nthN f (anchors (msh st)) = Some a -> nthN f (anchors (msh st')) = Some a' ->
   nthN i (mths st) = Some thi -> isReader thi f k ->
   akey a' = akey a /\ (wtbf a = true -> wtbf a' = true).
 Proof. exact reach_stable_while_read. Qed.
-Print Assumptions C55_entry_stable_while_read.
+Print Assumptions C55_entry_stable_while_read_partial.
 
 (* --- slices: StoreMap gives a slice back to the pool only in freeChainAt() run by an activity that holds
        exclusively the anchor g whose chain it walks; so no slice is freed through the chain of an entry while a
@@ -108,27 +125,51 @@ Print Assumptions C55_entry_stable_while_read.
        schedule through the oracle's slice-ownership table --- *)
 Theorem C55_slices_not_freed_while_read_partial : forall n scripts sched t st' evs b sid,
   let st := sreach n scripts sched in
+  noupd scripts = true ->
   sstep st t = (st', evs, b) -> In (t, MFree sid) evs ->
   exists th g p, nthN t (mths st) = Some th /\ (tpc th = Prim g p \/ tpc th = Tran g p) /\
     forall a i thi k, nthN g (anchors (msh st)) = Some a -> nthN i (mths st) = Some thi -> ~ isReader thi g k.
 Proof. exact reach_no_free_while_read. Qed.
 Print Assumptions C55_slices_not_freed_while_read_partial.
 
-Theorem C55_slices_freed_only_by_exclusive_holder : forall n scripts sched t st' evs b sid,
+Theorem C55_slices_freed_only_by_exclusive_holder_partial : forall n scripts sched t st' evs b sid,
   let st := sreach n scripts sched in
+  noupd scripts = true ->
   sstep st t = (st', evs, b) -> In (t, MFree sid) evs ->
   exists th g p, nthN t (mths st) = Some th /\ exclOn g th /\ (tpc th = Prim g p \/ tpc th = Tran g p).
 Proof. exact reach_free_by_exclusive. Qed.
-Print Assumptions C55_slices_freed_only_by_exclusive_holder.
+Print Assumptions C55_slices_freed_only_by_exclusive_holder_partial.
 
 (* --- after every process closed what it had opened, the lock of every anchor is idle again and can be taken in
        each of the three ways (lockExclusive is the first thing openForWritingAt and freeEntry do) --- *)
-Theorem C55_all_closed_entries_lockable_again : forall n scripts sched f a,
+Theorem C55_all_closed_entries_lockable_again_partial : forall n scripts sched f a,
   let st := sreach n scripts sched in
+  noupd scripts = true ->
   allClosed st -> nthN f (anchors (msh st)) = Some a ->
   lk a = idle_shared /\ probe (lk a) = Some [EvRet OpLX true; EvRet OpLS true; EvRet OpLH true].
 Proof. exact reach_idle_when_all_closed. Qed.
-Print Assumptions C55_all_closed_entries_lockable_again.
+Print Assumptions C55_all_closed_entries_lockable_again_partial.
+
+
+(* --- KNOWN FINDING (unchanged tree), with updaters the property is FALSE: a reader that opened the entry before an
+       update holds a lock on the stale anchor only; when the updated entry is then freed (here: freeEntryByKey), the
+       chain suffix it shares with the stale version is cleared and returned to the pool while the reader still walks
+       it: the same reader, without closing, first sees slice 1 with size 3, later (after MFree 1) with size 0.
+       Reproduced on the real code: corpus/C55/known.txt --- *)
+Definition k1u : key := (1%N, 0%N).
+Theorem C55_stale_reader_loses_shared_suffix_refuted :
+  exists scripts sched st evs n,
+    srun_case 4 scripts sched = Some (st, evs, n) /\
+    (* reader1_view: process 1's open / chain walks / close and every MFree, in the order they happened *)
+    reader1_view evs =
+      [ (1%N, MRet (KR k1u) (OOpenR (Some k1u)) (CRead 1 k1u));
+        (1%N, MRet KLook (OLook [(0, 2%N); (1, 3%N)] true) (CRead 1 k1u));
+        (0%N, MFree 2); (0%N, MFree 1);
+        (1%N, MRet KLook (OLook [(0, 2%N); (1, 0%N)] true) (CRead 1 k1u));
+        (1%N, MRet KLook (OLook [(0, 2%N); (1, 0%N)] true) (CRead 1 k1u));
+        (1%N, MRet KCr OUnit CIdle) ].
+Proof. exact stale_reader_witness. Qed.
+Print Assumptions C55_stale_reader_loses_shared_suffix_refuted.
 
 (* --- the hypotheses are satisfiable, non-trivially --- *)
 Definition k1 : key := (1%N, 0%N).
@@ -180,3 +221,16 @@ Example C55_ex_all_closed :
   | None => False
   end.
 Proof. vm_compute. reflexivity. Qed.
+
+(* an update: the reader of the updated entry walks fresh prefix ++ old suffix; recycling the stale anchor (key 2 now
+   maps to it) gives back exactly the replaced prefix (slice 0) *)
+Example C55_ex_update_then_recycle :
+  match srun_case 4 [[KW k1; KAdd 2; KAdd 3; KCw; KU k1; KSp 1; KAdd 5; KCu; KR k1; KLook; KCr; KW (2%N, 0%N)]] [] with
+  | Some (st, evs, _) =>
+      In (0%N, MRet (KU k1) (OUpd (Some (1%N, 2%N))) (CUpd (mkU k1 1 1 2 2 (-1) (-1) (-1)))) evs /\
+      In (0%N, MRet KLook (OLook [(2, 5%N); (1, 3%N)] true) (CRead 2 k1)) evs /\
+      filter (fun e => match snd e with MFree _ => true | _ => false end) evs = [(0%N, MFree 0)] /\
+      fileNos (msh st) = [0; 3; 2; 0]
+  | None => False
+  end.
+Proof. vm_compute. repeat split; try reflexivity; tauto. Qed.
